@@ -18,6 +18,8 @@ pub enum Val {
     I(i64),
     P(Box<Val>, Box<Val>),
     U,
+    /// a node handle as a value (Var<Incr<T>>, join)
+    N(incremental::Incr<Val>),
 }
 
 impl Default for Val {
@@ -38,6 +40,7 @@ impl Val {
             Val::I(x) => *x,
             Val::P(a, _) => a.int(),
             Val::U => 0,
+            Val::N(n) => n.verif_index() as i64,
         }
     }
     pub fn snd_int(&self) -> i64 {
@@ -54,6 +57,7 @@ impl Val {
             Val::I(x) => json!(["i", x, 0]),
             Val::P(a, b) => json!(["p", a.int(), b.int()]),
             Val::U => json!(["u", 0, 0]),
+            Val::N(n) => json!(["n", n.verif_index(), 0]),
         }
     }
     pub fn from_json(j: &J) -> Option<Val> {
